@@ -239,7 +239,15 @@ func (s *Cron) Add(j *Job) error {
 		return err
 	}
 
-	return s.DB.Update(f)
+	// Check again in the transaction that writes: another Add for
+	// the same job might have committed since the test above.
+	part := s.Partition(j.Account)
+	return s.DB.Update(func(tx *bolt.Tx) error {
+		if 0 < len(tx.Bucket([]byte("jobs" + part)).Get([]byte(j.aid))) {
+			return Exists
+		}
+		return f(tx)
+	})
 }
 
 func (s *Cron) update(j *Job) (func(*bolt.Tx) error, error) {
